@@ -29,9 +29,9 @@ package equal
 //@ o-operands: this:typ that:typ -> bool
 //@ o-pure
 //@ o-ensures: [statement] r <==> EqTop(typ, this, that)
-//@ o-loop: when kind(typ)==Slice=yes 1: invariant forall j int :: 0 <= j && j < $i ==> EqC(elem(typ), this[j], that[j])
-//@ o-loop: when kind(typ)==Array=yes 1: invariant forall j int :: 0 <= j && j < $i ==> EqC(elem(typ), this[j], that[j])
-//@ o-loop: when kind(typ)==Map=yes 1: invariant forall k val :: visited(k) ==> k in that && EqC(elem(typ), this[k], that[k])
+//@ o-loop: when kind(typ)=Slice 1: invariant forall j int :: 0 <= j && j < $i ==> EqC(elem(typ), this[j], that[j])
+//@ o-loop: when kind(typ)=Array 1: invariant forall j int :: 0 <= j && j < $i ==> EqC(elem(typ), this[j], that[j])
+//@ o-loop: when kind(typ)=Map 1: invariant forall k val :: visited(k) ==> k in that && EqC(elem(typ), this[k], that[k])
 
 //@ func (g *gen) genFunc(typs []types.Type) (err error)
 //@ param typs: len=2 identical
